@@ -162,6 +162,19 @@ CHECKS = {
         note=TLC_BASE + "; values free of '$'; non-ASCII letters are represented by ASCII placeholders in the spec and "
              "substituted by the harness",
         design="7/C19"),
+    "C20": dict(
+        category="model_checking",
+        technique="TLA+ spec (Literals.tla: literal grammar with symbolic magnitudes and the accept/reject case analysis) "
+                  "enumerated by TLC; every literal materialised and replayed through serde in YAML and JSON",
+        text="Literals.tla enumerates scalar form x magnitude (2^k+d around every overflow threshold, small numbers, "
+             "leading zeros, 20 digits) x whitespace x unit spelling / case x junk x sign / fraction and decides each "
+             "literal symbolically (accept with number x 2^(10u) iff the unit is known and the product fits; intervals "
+             "must fit i64). The harness materialises each literal with u128 arithmetic, parses it from YAML and JSON "
+             "through the public Deserializers (size) / TimeTriggerInterval (interval) under catch_unwind and "
+             "compares verdict and value. This is numeric accuracy of a pure function: TLA+ contributes the exhaustive "
+             "case analysis and the symbolic thresholds, the harness the big-number arithmetic.",
+        note=TLC_BASE + "; the size limit is read back from the trigger's Debug rendering",
+        design="7/C20"),
 }
 
 NOT_YET = "check not built yet in this round (planned, see DESIGN.md section 7)"
